@@ -17,19 +17,21 @@ type menu struct {
 	tags []string // short names for case ids
 }
 
-func menus(lim limits) []menu {
+// menus returns the per-token menus; the normal value of PRI, host, app and msgid is the one of the sentinels, so that a
+// record of normal tokens shares their pipeline.
+func menus(lim limits, st *sentinels) []menu {
 	long := strings.Repeat("L", 2*(lim.maxMessage+256)+1) // longer than the serializer's fixed buffer (2*InputLogMaxRecordBytes)
 	L := lim.maxMessage
 	return []menu{
-		{"pri", []string{"<13>1", "<", "<>1", "<1", "<191>1", "<192>1", "<-1>1", "<99999999999>1", "<13>2"},
+		{"pri", []string{st.tok[0], "<", "<>1", "<1", "<191>1", "<192>1", "<-1>1", "<99999999999>1", "<13>2"},
 			[]string{"ok", "lt", "empty", "nogt", "191", "192", "neg", "huge", "v2"}},
 		{"ts", []string{"2020-01-01T00:00:02Z", "2019-08-15T15:50:46.866915+03:00", "2020-09-17T16:51:47.867-0800", "-", "", "2020-01-01",
 			"2020-01-01T00:00:00", "2020/01/01T00.00.00Z", "2020-01-01T00:00:00.1234567890123456789Z"},
 			[]string{"z", "frac", "compact", "nil", "empty", "date", "nozone", "badsep", "40"}},
-		{"host", []string{"sentHost", "", "-", long, "ho\xffst", "ho/st"}, []string{"ok", "empty", "nil", "long", "ff", "slash"}},
-		{"app", []string{"sentApp", "", "-", long, "ap\xffp", "sentApp/vhost.example.com"}, []string{"ok", "empty", "nil", "long", "ff", "slash"}},
+		{"host", []string{st.tok[2], "", "-", long, "ho\xffst", "ho/st"}, []string{"ok", "empty", "nil", "long", "ff", "slash"}},
+		{"app", []string{st.tok[3], "", "-", long, "ap\xffp", "sentApp/vhost.example.com"}, []string{"ok", "empty", "nil", "long", "ff", "slash"}},
 		{"pid", []string{"1"}, []string{"1"}},
-		{"msgid", []string{"sent.log", "", "-", long, "ms\xffg", "dir/file.log", "job.log:0123abcd-ef"}, []string{"ok", "empty", "nil", "long", "ff", "slash", "task"}},
+		{"msgid", []string{st.tok[5], "", "-", long, "ms\xffg", "dir/file.log", "job.log:0123abcd-ef"}, []string{"ok", "empty", "nil", "long", "ff", "slash", "task"}},
 		{"sd", []string{"-", "[x]"}, []string{"nil", "x"}},
 		{"msg", []string{
 			"plain message",
@@ -75,7 +77,7 @@ var stdSentinels = newSentinels("std", "<13>1 2020-01-01T00:00:01Z sentHost sent
 func enumMenus(h *harness) {
 	ctx := h.ctx
 	for _, lim := range []limits{scaled, prod} {
-		ms := menus(lim)
+		ms := menus(lim, stdSentinels)
 		full := lim.name == "scaled" || ctx.Thorough()
 		if full {
 			ctx.Group("A/menus/" + lim.name + "/full-product")
@@ -250,7 +252,7 @@ func diag() {
 		// verdicts of single() over the sub-domain of (A) with a long msgid, for comparison with the batched run
 		tally := map[string]int{}
 		for _, lim := range []limits{scaled, prod} {
-			ms := menus(lim)
+			ms := menus(lim, stdSentinels)
 			idx := make([]int, len(ms))
 			for {
 				dev := 0
@@ -260,7 +262,7 @@ func diag() {
 					}
 				}
 				if idx[5] == 3 && (lim.name == "scaled" || dev <= 2) {
-					k, _ := h.single(lim, stdSentinels, buildRecord(ms, idx))
+					k, _ := h.single(lim, stdSentinels, buildRecord(ms, idx), 0)
 					tally[k]++
 				}
 				i := len(idx) - 1
@@ -290,7 +292,7 @@ func diag() {
 		t0 := time.Now()
 		n := 2000
 		for i := 0; i < n; i++ {
-			h.single(lim, stdSentinels, "<13>1 2020-01-01T00:00:02Z sentHost otherApp 1 sent.log - plain message")
+			h.single(lim, stdSentinels, "<13>1 2020-01-01T00:00:02Z sentHost otherApp 1 sent.log - plain message", 0)
 		}
 		fmt.Printf("%s: %.1f us per case\n", lim.name, float64(time.Since(t0).Microseconds())/float64(n))
 	}
@@ -303,7 +305,7 @@ func diag() {
 		"<13>1 2020-01-01T00:00:02Z " + strings.Repeat("L", 641) + " sentApp 1 sent.log - plain message",
 		"<13>1 - sentHost sentApp 1 sent.log - plain message",
 	} {
-		k, m := h.single(scaled, stdSentinels, rec)
+		k, m := h.single(scaled, stdSentinels, rec, 0)
 		if len(m) > 700 {
 			m = m[:700]
 		}
